@@ -6,7 +6,7 @@ ASTs) is answered by the real database through count/search/contains/get/select
 (db and handle, with/without measurement filter) and compared with the model,
 in all four configurations {CSV, memory} x {auto_index on, off}.
 """
-from .. import contracts, qast
+from .. import contracts, cover, qast
 from ..common import Scratch, rng_for
 from ..core import Violation
 from ..histories import HistoryRunner, Profile, describe, replay_of, replay_ops
@@ -70,6 +70,7 @@ def run(res, tier, seed, shard, nshards):
         "shape, read op, serving path) tuples"
     )
     judge = make_judge(res)
+    cover.start(cover.anchored_read_write_functions())
     with Scratch("c01") as scratch:
         for ci, cfg in enumerate(CONFIGS):
             for h in range(N_HIST[tier]):
@@ -77,6 +78,7 @@ def run(res, tier, seed, shard, nshards):
                 s = HistoryRunner(res, cfg, scratch, rng, profile(h), judge).run()
                 if h == 0 and shard == 0 and ci in (0, 2):
                     res.sample({"config": cfg_name(cfg), "first_ops": s.log[:6]})
+    cover.collect(res)
     for b in contracts.drain(res):
         res.violate(Violation("C01", "find-helper-contract", {"what": b}, replay={"what": list(b)}))
     for cfg in CONFIGS:
@@ -96,3 +98,12 @@ def replay(res, rep):
     r = rep["replay"]
     with Scratch("c01r") as scratch:
         replay_ops(res, r["cfg"], r["ops"], scratch, make_judge(res))
+
+
+def finalize(res, tier):
+    un = cover.unreached(res, cover.anchored_read_write_functions())
+    res.notes.append("executable lines of the anchored functions never executed by this run: " + repr({k: v for k, v in un.items() if v}))
+    # gate: both the index-assisted and the scan loops of search()/select() must have run
+    for fn in ("TinyFlux.search", "TinyFlux.select", "TinyFlux.get", "Index._search_timestamps"):
+        if not res.sets.get(f"lines.{fn}"):
+            res.inconclusive.append(f"no line of {fn} was executed")
